@@ -501,21 +501,44 @@ func c06Units(r *core.Run, rule string, root []*ssa.Function, ro *muxRoles, grou
 							}
 						}
 						for _, c := range callsTo(root, prm.Parent()) {
-							a := c.Common().Args[idx]
-							switch y := a.(type) {
-							case *ssa.Slice:
-								if y.Low == nil {
+							// (the caller may itself have been handed the slice: toString(tokens) -> part.value(tokens))
+							var resolve func(a ssa.Value, d int)
+							resolve = func(a ssa.Value, d int) {
+								switch y := a.(type) {
+								case *ssa.Slice:
+									if y.Low == nil {
+										good = false
+									} else {
+										rebasedRead[ac.F.Struct] = true
+									}
+								case *ssa.Const:
+									if !y.IsNil() {
+										good = false
+									}
+								case *ssa.Parameter:
+									pi := -1
+									for i, q := range y.Parent().Params {
+										if q == y {
+											pi = i
+										}
+									}
+									cs := callsTo(root, y.Parent())
+									if d > 3 || pi < 0 || len(cs) == 0 {
+										good = false
+										return
+									}
+									for _, c2 := range cs {
+										if pi < len(c2.Common().Args) {
+											resolve(c2.Common().Args[pi], d+1)
+										} else {
+											good = false
+										}
+									}
+								default:
 									good = false
-								} else {
-									rebasedRead[ac.F.Struct] = true
 								}
-							case *ssa.Const:
-								if !y.IsNil() {
-									good = false
-								}
-							default:
-								good = false
 							}
+							resolve(c.Common().Args[idx], 0)
 						}
 					}
 					r.Check(good, rule, fn, "read("+label(ac.F)+")-indexes-rebased-slice", p.InstrPos(x), "indexes a token slice that every caller re-slices at the mount index (or nil)", "mount-relative index applied to a slice that is not rebased by all callers")
